@@ -1,10 +1,12 @@
 ---------------------------- MODULE MC_Session ----------------------------
 (* Bounded instance of Session.tla. *)
-EXTENDS Session
-CONSTANTS MaxSteps, OpKinds, Msgs, MaxChunk, UseSubs
-VARIABLES k, last
-mvars == <<s, k, last>>
-MInit == SInit /\ k = 0 /\ last = <<"init">>
+EXTENDS Session, Json
+CONSTANTS MaxSteps, OpKinds, Msgs, MaxChunk, UseSubs,
+          GenMode      \* TRUE: every distinct state is printed once with the (shortest) history that reaches it
+VARIABLES k, last, hist, fin
+mvars == <<s, k, last, hist, fin>>
+mview == <<s, k, last, fin>>
+MInit == SInit /\ k = 0 /\ last = <<"init">> /\ hist = <<>> /\ fin = FALSE
 M(kk, a, h, f, d, t) == [k |-> kk, a |-> a, h |-> h, f |-> f, d |-> d, t |-> t]
 BleMsgs == {M(kk, a, h, FALSE, 7, "") : kk \in {"read", "gatterr"}, a \in {1, 2}, h \in {1, 2}}
            \cup {M("conn", a, 0, f, 0, "") : a \in {1, 2}, f \in BOOLEAN}
@@ -14,10 +16,12 @@ SubMsgs == {M("state", 0, 0, FALSE, 11, "SensorState"), M("log", 0, 0, FALSE, 5,
            \cup {M("cam", 0, c, f, key, "") : c \in {1, 2}, f \in BOOLEAN, key \in {1, 2}}
            \cup {M("vareq", 0, 0, f, 5, "") : f \in BOOLEAN} \cup {M("vaaudio", 0, 0, f, 2, "") : f \in BOOLEAN}
 Chunks == UNION {[1..n -> Msgs] : n \in 1..MaxChunk}
-Act(y, tok) == k < MaxSteps /\ k' = k + 1 /\ s' = y /\ last' = tok
+Act2(y, tok, htok) == /\ ~fin /\ k < MaxSteps /\ k' = k + 1 /\ s' = y /\ last' = tok /\ UNCHANGED fin
+                      /\ hist' = IF GenMode THEN Append(hist, htok) ELSE hist
+Act(y, tok) == Act2(y, tok, tok)
 MNext ==
   \/ \E i \in OpIds, kk \in OpKinds, a \in {1}, h \in {1} :
-        s.ops[i].st = "none" /\ (i = "o1" \/ s.ops["o1"].k # "none") /\ Act(UserOp(s, i, kk, a, h), <<"op", i>>)
+        s.ops[i].st = "none" /\ (i = "o1" \/ s.ops["o1"].k # "none") /\ Act2(UserOp(s, i, kk, a, h), <<"op", i>>, <<"op", i, kk, a, h>>)
   \/ s.up /\ \E ms \in Chunks : Act(EnvChunk(s, ms), <<"chunk", ms>>)
   \/ \E i \in OpIds : OpStepEnabled(s, i) /\ Act(OpStep(s, i), <<"step", i>>)
   \/ \E i \in OpIds : Due(s, OpTimer(i)) /\ Act(OpTimerFire(s, i), <<"timer", i>>)
@@ -26,13 +30,15 @@ MNext ==
   \/ Quiescent(s) /\ NothingDue(s) /\ s.tm # {} /\ Act([Begin(s) EXCEPT !.now = NextDeadline(s)], <<"time">>)
   \/ \E i \in OpIds : (\E u \in s.subs : u.id = OpNum(i) /\ u.fam = "connstate") /\ s.ops[i].st = "none" /\ Act(ConnUnsub(s, i), <<"connunsub", i>>)
   \/ UseSubs /\ \E id \in {1, 2}, fam \in {"states", "logs"}, once \in BOOLEAN :
-        ~(\E u \in s.subs : u.id = id) /\ (once => fam = "logs") /\ Act(UserSub(s, id, fam, once), <<"sub", id>>)
-  \/ UseSubs /\ \E u \in s.subs : u.fam = "logs" /\ Act(UserUnsub(s, u.id, u.fam), <<"unsub", u.id>>)
-  \/ UseSubs /\ ~s.va.on /\ Len(s.va.q) = 0 /\ \E md \in {"port", "noport", "block", "gated"}, au \in BOOLEAN : Act(VaSubscribe(s, md, au), <<"vasub">>)
+        ~(\E u \in s.subs : u.id = id) /\ (once => fam = "logs") /\ Act2(UserSub(s, id, fam, once), <<"sub", id>>, <<"sub", id, fam, once>>)
+  \/ UseSubs /\ \E u \in s.subs : u.fam = "logs" /\ Act2(UserUnsub(s, u.id, u.fam), <<"unsub", u.id>>, <<"unsub", u.id, u.fam>>)
+  \/ UseSubs /\ ~s.va.on /\ Len(s.va.q) = 0 /\ \E md \in {"port", "noport", "block", "gated"}, au \in BOOLEAN : Act2(VaSubscribe(s, md, au), <<"vasub">>, <<"vasub", md, au>>)
   \/ UseSubs /\ s.va.on /\ Act(VaUnsub(s), <<"vaunsub">>)
   \/ s.up /\ \E j \in VaDone(s) : Act(VaStarted(s, j), <<"vastarted">>)
   \/ \E j \in VaWoken(s) : Act(VaHandlerStep(s, j), <<"vahandler">>)
-  \/ \E j \in 1..Len(s.va.q), res \in {"port", "noport"} : s.va.q[j].st = "pending" /\ Act(VaRelease(s, s.va.q[j].n, res), <<"varelease">>)
+  \/ \E j \in 1..Len(s.va.q), res \in {"port", "noport"} : s.va.q[j].st = "pending" /\ Act2(VaRelease(s, s.va.q[j].n, res), <<"varelease">>, <<"varelease", s.va.q[j].n, res>>)
+  \/ /\ GenMode /\ ~fin /\ Len(hist) >= 2 /\ fin' = TRUE /\ UNCHANGED <<s, k, last, hist>>
+     /\ PrintT(<<"SCHED", ToJson(hist)>>)
 MSpec == MInit /\ [][MNext]_mvars
 
 \* C16 ------------------------------------------------------------------
